@@ -184,6 +184,7 @@ class Resolver:
         self.impl_info = {}  # impl span text -> (trait_head|None, selfty_head, selfty_full)
         self.enums = {}      # enum name -> [variant names]
         self.impl_generics = {}
+        self.variant_kind = {}   # (enum, variant) -> 'unit' | 'tuple' | 'struct'
         self.aliases = {}    # alias name -> (param names, rhs text)
         self._index_aliases()
         self._index()
@@ -399,9 +400,10 @@ class Resolver:
                         part = part.strip()
                         if not part:
                             continue
-                        vm = re.match(r'^([A-Za-z_0-9]+)', part)
+                        vm = re.match(r'^([A-Za-z_0-9]+)\s*([({])?', part)
                         if vm:
                             variants.append(vm.group(1))
+                            self.variant_kind[(name, vm.group(1))] = {'(': 'tuple', '{': 'struct'}.get(vm.group(2), 'unit')
                     mod = os.path.relpath(os.path.join(root, fn), srcdir)[:-3].replace('/', '::')
                     self.enums.setdefault(name, []).append((mod, variants))
 
